@@ -140,7 +140,7 @@ def coo_sum_duplicates(coo):
             this_key = coo.key[i]
             sum_ind += 1
 
-    if this_key != coo.key[upper_lim]:
+    if upper_lim > lower_lim:
         coo.row[sum_ind] = this_row
         coo.col[sum_ind] = this_col
         coo.val[sum_ind] = this_val
